@@ -274,11 +274,15 @@ func ZZNodeTerm(kind int) {
 	if kind == 0 {
 		fc := zzFollowerOver(w, m, -1)
 		vAssert("fresh-node-not-member", fc.status == proto.ServingStatus_NOT_MEMBER && fc.term == -1)
-		_, err := fc.NewTerm(&proto.NewTermRequest{Term: T1})
+		notif := vBool("notificationsEnabled")
+		_, err := fc.NewTerm(&proto.NewTermRequest{Term: T1, Options: &proto.NewTermOptions{EnableNotifications: notif}})
 		vAssert("first-term-accepted", err == nil && fc.term == T1)
 		m.zzCrash()
 		fc2 := zzFollowerOver(w, m, -1)
 		vAssert("term-survives-crash", fc2.term == T1)
+		// C06: what a replica writes for a committed entry (notification batches) depends on the term's options:
+		// they must read back exactly as stored, or a restarted replica diverges from one that did not restart
+		vAssert("term-options-survive-a-restart", fc2.termOptions.NotificationsEnabled == notif)
 		vAssert("restarts-fenced", fc2.status == proto.ServingStatus_FENCED)
 		_, err = fc2.NewTerm(&proto.NewTermRequest{Term: T2})
 		vAssert("term-never-decreases", (err == nil) == (T2 >= T1))
